@@ -73,6 +73,17 @@ Theorem C05_testify_no_shared : forall ps,
 Proof. exact testify_no_shared. Qed.
 Print Assumptions C05_testify_no_shared.
 
+(* A closure handed to testify (typed Run / RunAndReturn wrapper) that reads or writes a captured
+   mutable variable: goskel translates that to Snap k / WriteNil k on a location k no lock protects.
+   Such code is rejected by the kernel check (neither well locked nor testify-local), and two
+   invocations of the handler do race in the model. *)
+Theorem C05_shared_closure_races : forall k,
+  wl HNone [WriteNil k] = false /\ wl HNone [Snap k] = false /\
+  testify_instr (WriteNil k) = false /\ testify_instr (Snap k) = false /\
+  race (init [[WriteNil k]; [WriteNil k]]) /\ race (init [[Snap k]; [WriteNil k]]).
+Proof. exact shared_closure_races. Qed.
+Print Assumptions C05_shared_closure_races.
+
 (* The bodies written from the template text are well locked for every method and call. *)
 Theorem C05_template_bodies_wl : forall m v,
   wl HNone (call_body m v) = true /\ wl HNone (calls_body m) = true /\ wl HNone (reset_body m) = true.
